@@ -130,6 +130,12 @@ def check(c):
         finally:
             if ctx:
                 ctx.__exit__(None, None, None)
+        # replacement orders (created by the execution layer when an order is re-priced) are orders of the run too
+        for s_, o_ in list(orders[:: max(1, len(orders) // 10)][:10]):
+            r1 = o_.trade.create_order_replacement(o_, 3.0, 1.0, _dt.datetime.utcnow())
+            r2 = o_.trade.create_order_replacement(r1, 3.5, 1.0, _dt.datetime.utcnow())
+            orders += [(s_, r1), (s_, r2)]
+            classes.add("replacement-orders")
         refs = [o.customer_order_ref for _, o in orders]
         for (s, o), ref in zip(orders, refs):
             if len(ref) > 32:
